@@ -667,7 +667,7 @@ var unknownPaths = [][]string{
 
 var methods = []string{"GET", "POST", "DELETE", "PUT", "PATCH", "HEAD", "OPTIONS"}
 var metricNames = []string{"ping", "freespace", "numpin", "m-1", "c3", "p2", "x0"}
-var pathTails = [][]string{{}, {"a"}, {"a", "b"}, {"docs", "file.txt"}, {"c2"}, {"recover"}}
+var pathTails = [][]string{{}, {"a"}, {"a", "b"}, {"docs", "file.txt"}, {"c2"}, {"recover"}, {"meta-x"}, {"pins", "ipfs"}, {"name", "mode"}, {"add"}}
 
 // fill instantiates a template; bad selects the part to make invalid (-1 none).
 func fill(r *common.Rng, t tmpl, bad int) []string {
@@ -933,7 +933,7 @@ func genReq(r *common.Rng) reqCase {
 		if r.Chance(1, 4) {
 			n := r.Range(1, 3)
 			for i := 0; i < n; i++ {
-				c.meta = append(c.meta, [2]int{r.Intn(8), r.Intn(8)})
+				c.meta = append(c.meta, [2]int{r.Intn(metaKeyU), r.Intn(metaValU)})
 			}
 		}
 	}
@@ -1134,6 +1134,23 @@ func sysCases() []reqCase {
 			out = append(out, reqCase{method: t.method, auth: "n", segs: fill(r, t, -1), query: q, rpc: "ok", body: "-"})
 		}
 		out = append(out, reqCase{method: t.method, auth: "n", segs: fill(r, t, -1), meta: [][2]int{{1, 2}, {3, 0}, {1, 4}, {0, 5}, {7, 7}}, rpc: "ok", body: "-"})
+		// every metadata key on its own (keys made of the characters of the "meta-" prefix, keys equal to option names,
+		// keys that need escaping), all of them at once, every value, every name
+		var all [][2]int
+		for k := 0; k < metaKeyU; k++ {
+			out = append(out, reqCase{method: t.method, auth: "n", segs: fill(r, t, -1), meta: [][2]int{{k, 1 + k%(metaValU-1)}}, rpc: "ok", body: "-"})
+			all = append(all, [2]int{k, (k*7 + 3) % metaValU})
+		}
+		out = append(out, reqCase{method: t.method, auth: "n", segs: fill(r, t, -1), meta: all, rpc: "ok", body: "-"})
+		for v := 0; v < metaValU; v++ {
+			out = append(out, reqCase{method: t.method, auth: "n", segs: fill(r, t, -1), meta: [][2]int{{1 + v%(metaKeyU-1), v}}, rpc: "ok", body: "-"})
+		}
+		if ri < 2 {
+			for n := 0; n < nameU; n++ {
+				out = append(out, reqCase{method: t.method, auth: "n", segs: fill(r, t, -1), query: []qparam{{key: "name", class: 'v', val: strconv.Itoa(n)}},
+					meta: [][2]int{{13, 10}}, rpc: "ok", body: "-"})
+			}
+		}
 	}
 	// local / filter options
 	for _, t := range templates {
